@@ -229,6 +229,34 @@ func genC19(o *Out, rng *rand.Rand, tier string) {
 		out, _ := labelDec(w)
 		o.Emit(map[string]any{"op": "LRT", "names": namesJSON(ns), "wire": B(w), "out": out}, "roundtrip", w, len(ns) > 0)
 	}
+	// sets made with the package's constructor and filled name by name, several of them alive at the same time: each
+	// encodes its own names
+	for i := 0; i < n/4; i++ {
+		k := 2 + rng.Intn(3)
+		sets := make([]*rfc1035label.Labels, k)
+		want := make([][]string, k)
+		for j := range sets {
+			sets[j] = rfc1035label.NewLabels()
+		}
+		for round := 0; round < 4; round++ { // filled in turns
+			for j := range sets {
+				if rng.Intn(3) > 0 {
+					nm := randName(rng)
+					sets[j].Labels = append(sets[j].Labels, nm)
+					want[j] = append(want[j], nm)
+				}
+			}
+		}
+		for j := range sets {
+			w := sets[j].ToBytes()
+			out, _ := labelDec(w)
+			ns := want[j]
+			if ns == nil {
+				ns = []string{}
+			}
+			o.Emit(map[string]any{"op": "LRT", "names": namesJSON(ns), "wire": B(w), "out": out}, "roundtrip-constructed-sets", append([]byte{byte(j)}, w...), len(ns) > 0)
+		}
+	}
 	// encode -> decode through every option that carries names, built with the option's own constructor (an option may
 	// bring an encoder of its own): the wire form is judged by the specification's decoder, the names must come back
 	for i := 0; i < n/2; i++ {
@@ -380,12 +408,21 @@ func genC19(o *Out, rng *rand.Rand, tier string) {
 		o.Emit(map[string]any{"op": "LObj", "in": B(in), "out": out, "steps": steps, "encs": encs}, "object-edits", append(in, byte(len(steps))), true)
 	}
 	// the same decoder reached through the options that carry names
-	for i := 0; i < n/2; i++ {
+	texts := []string{"corp.example.com", "example.com", "a.b c.d", "example.com,foo.org", "localhost", "EXAMPLE.ORG.", "lab-1.example.net eng.example.net",
+		"x", "-", "a,b", " ", "corp.example.com\x00"}
+	for i := 0; i < n/2+8*len(texts); i++ {
 		in := randLabelWire(rng)
 		if i%4 == 0 {
 			in = (&rfc1035label.Labels{Labels: randNames(rng)}).ToBytes()
 		}
+		if i >= n/2 {
+			// names as text where the wire format belongs (a mis-configured server): not what RFC 1035 3.1 describes
+			in = []byte(texts[(i-n/2)/8])
+		}
 		via := []string{"v4ds", "v6dsl", "v6fqdn", "v6ntp"}[i%4]
+		if i >= n/2 {
+			via = []string{"v4ds", "v6dsl", "v6fqdn", "v6ntp"}[(i-n/2)%4]
+		}
 		if via == "v4ds" && (len(in) == 0 || len(in) > 1000) {
 			continue // an empty option value reads as "option absent" through the DHCPv4 accessor (C17), not a label question
 		}
